@@ -33,7 +33,12 @@ fn healthy_history(run: &Run, case: u64) {
             continue;
         }
         for quick in [false, true] {
-            let v = cs::validate(cs::local(&w.arch), quick);
+            // every third history validates on a 4-worker runtime (validate spawns a task per block)
+            let workers = if case % 3 == 2 { 4 } else { 0 };
+            let v = cs::with_workers(workers, || cs::validate(cs::local(&w.arch), quick));
+            if workers > 0 {
+                run.count("validations_on_a_multi_thread_runtime", 1);
+            }
             run.count("healthy_validations", 1);
             let replay = json!({"healthy": true, "case": case, "step": step, "history": descs});
             if let Some(p) = &v.panic {
@@ -104,7 +109,9 @@ fn one_damage(run: &Run, s: &Subject, base_errors: &std::collections::BTreeMap<u
     if let Some(why) = &harm {
         run.count("harmful_damages", 1);
         run.nontrivial(fnv(format!("{case}|{}", d.desc()).as_bytes()));
-        let full = cs::validate(cs::local(&arch), false);
+        // damage side: every second damaged archive is validated on a 4-worker runtime
+        let workers = if crate::rng::fnv(d.desc().as_bytes()) % 2 == 0 { 4 } else { 0 };
+        let full = cs::with_workers(workers, || cs::validate(cs::local(&arch), false));
         if let Some(p) = &full.panic {
             run.violation(format!("validate-panic:{}@{}", panic_site(p), d.class()), format!("{}: {p}", d.desc()), replay);
         } else if full.clean() {
@@ -190,7 +197,7 @@ pub fn run(tier: Tier, replay: Option<Value>) -> i32 {
         &[("healthy_validations", 100), ("healthy_states_with_interrupted_band", 3), ("damages_applied", 200), ("harmful_damages", 50), ("harmless_damages", 5)]
     };
     run.finish(
-        "healthy side: histories as in C02 (completed and interrupted-with-header backups, deletes, gcs; states with a head-less band directory skipped); after every archive-changing step full and quick validation must return Ok and report nothing. Damage side: archives with 2-4 bands (complete, interrupted in the middle, interrupted newest) sharing blocks; EVERY file except CONSERVE x {delete (not for BANDTAIL), truncate to 0, truncate to half, overwrite with seeded garbage} and 8 seeded bit flips per block; a damage is harmful when some version's restore by id fails, reports (more) errors or differs from its pre-damage result (interrupted versions with a header included; only the vanished or emptied last hunk of an interrupted band is exempt, because that state is exactly what an interruption leaves); every harmful damage must make full validation report >= 1 error, and every harmful deletion quick validation too. Distinct = (archive, damaged file, action) that is harmful.",
+        "(every third healthy history and every second damaged archive is validated on a 4-worker multi-thread runtime) healthy side: histories as in C02 (completed and interrupted-with-header backups, deletes, gcs; states with a head-less band directory skipped); after every archive-changing step full and quick validation must return Ok and report nothing. Damage side: archives with 2-4 bands (complete, interrupted in the middle, interrupted newest) sharing blocks; EVERY file except CONSERVE x {delete (not for BANDTAIL), truncate to 0, truncate to half, overwrite with seeded garbage} and 8 seeded bit flips per block; a damage is harmful when some version's restore by id fails, reports (more) errors or differs from its pre-damage result (interrupted versions with a header included; only the vanished or emptied last hunk of an interrupted band is exempt, because that state is exactly what an interruption leaves); every harmful damage must make full validation report >= 1 error, and every harmful deletion quick validation too. Distinct = (archive, damaged file, action) that is harmful.",
         &["the last hunk of an incomplete band can vanish without any format-level trace: exempt", "E1 walker decides 'restores exactly'"],
         Some(true),
         needs,
